@@ -64,6 +64,8 @@ def run_mvdr(key):
     D, F, K, sk, nk, stack, seed = (key[k] for k in ('D', 'F', 'K', 'steer', 'noise', 'stack', 'seed'))
     a = steering(seed, K, F, D, sk)
     Phi, cond = noise_psd(seed, F, D, nk)
+    a = a * key.get('a_scale', 1.0)
+    Phi = Phi * key.get('p_scale', 1.0)
     if stack == 'single':
         atf, psd = a[0, 0], Phi[0]
     elif stack == 'bins':
@@ -107,7 +109,8 @@ def run_mvdr(key):
             # closed form
             x = np.linalg.solve(P, av)
             ref = x / (av.conj() @ x)
-            bad = tol.mismatch(wv, ref, rt, what='MVDR vs Phi^-1 a / (a^H Phi^-1 a)')
+            nr = np.linalg.norm(ref)
+            bad = tol.mismatch(wv / nr, ref / nr, rt, what='MVDR vs Phi^-1 a / (a^H Phi^-1 a) (relative to |w|)')
             if bad:
                 return viol(bad)
     return ok(outcome=tol.digest(w))
@@ -262,8 +265,13 @@ def subchecks(tier, seed):
                                     continue
                                 if stack == 'bins' and K > 1:
                                     continue
-                                yield (D, F, K, sk, nk, stack, seed)
-    subs.append(Sub('mvdr', ('D', 'F', 'K', 'steer', 'noise', 'stack', 'seed'), mvdr_cases, run_mvdr))
+                                yield (D, F, K, sk, nk, stack, 1.0, 1.0, seed)
+                                if sk == 'generic' and D in (2, 5):
+                                    for a_s, p_s in ((1e-6, 1.0), (1.0, 1e12), (1e6, 1e-12), (1e-8, 1e8), (1e100, 1.0),
+                                                     (1.0, 1e-100)):
+                                        yield (D, F, K, sk, nk, stack, a_s, p_s, seed)
+    subs.append(Sub('mvdr', ('D', 'F', 'K', 'steer', 'noise', 'stack', 'a_scale', 'p_scale', 'seed'),
+                    mvdr_cases, run_mvdr))
 
     def lcmv_cases():
         for D in Ds:
